@@ -309,3 +309,23 @@ Proof.
     { eapply Rle_trans; [exact Far|]. apply Rmult_le_compat_l; lra. }
     lra.
 Qed.
+
+(* every Gabor filter whose edges are at most half the sampling rate apart (all banks: the
+   edges lie in [low_hz, high_hz] within [0, rate/2]) has std >= 1/4 sample *)
+Lemma gabor_std_ge_quarter_l : forall erb rate le re, 0 < rate -> le < re -> re - le <= rate / 2 ->
+  1 / 4 <= gabor_std erb rate le re.
+Proof.
+  intros erb rate le re Hr Hl Hw. unfold gabor_std, h2a. cbv zeta.
+  pose proof PI_RGT_0 as HPI. assert (HPI4 : PI < 4) by interval.
+  set (h := ((le + re) / 2 - le) * 2 * PI / rate).
+  assert (Hh : 0 < h <= 2).
+  { unfold h. replace (((le + re) / 2 - le) * 2 * PI / rate) with ((re - le) / rate * PI) by (field; lra).
+    assert (0 < (re - le) / rate <= 1 / 2).
+    { split; [apply Rdiv_lt_0_compat; lra|].
+      apply Rmult_le_reg_r with rate; [lra|]. replace ((re - le) / rate * rate) with (re - le) by (field; lra). lra. }
+    nra. }
+  assert (Hb : 4 / 5 <= gabor_bandwidth_const erb).
+  { unfold gabor_bandwidth_const. destruct erb; interval. }
+  apply Rmult_le_reg_r with h; [lra|].
+  replace (gabor_bandwidth_const erb / h * h) with (gabor_bandwidth_const erb) by (field; lra). nra.
+Qed.
